@@ -21,7 +21,8 @@ KIND_SRC = {
     "Attribute": ["a.b", "(1).real", "1.5.real", "a.b.c", "'s'.x", "(-1).x"],
     "Subscript": ["a[b]", "a[1:2]", "a[::2]", "a[1:2,3]", "a[1:2,]", "a[b,c]", "a[:,...,None]", "a[()]", "a[b:c:d, e:f]"],
     "Call": ["f()", "f(a)", "f(a,b)", "f(*a)", "f(a,k=b)", "f(**k)", "f(a for b in c)", "f(a,*b,k=c,**d)",
-             "f((a for b in c), d)", "f(k=(x:=1))", "f(x:=1)", "f(x:=1, y)", "f(a, **b, c=1)", "f(**a, b=1, **c)", "f(*a, b, *c, d=1)"],
+             "f((a for b in c), d)", "f(k=(x:=1))", "f(x:=1)", "f(x:=1, y)", "f(a, **b, c=1)", "f(**a, b=1, **c)", "f(*a, b, *c, d=1)",
+             "f((a for b in c), k=1)", "f((a for b in c), **k)", "f((a for b in c), *d)", "f(*(a for b in c))", "f(k=(a for b in c))"],
     "Await": ["await a", "await a.b", "await f(x)"],
     "Compare": ["a<b", "a<b<=c", "a is not b", "a not in b in c", "a==b!=c>d>=e"],
     "IfExp": ["a if b else c", "a if b else c if d else e", "(a if b else c) if d else e"],
